@@ -241,6 +241,25 @@ class RefKFAC:
                 self.snap[n] = None
 
 
+def fp16_range_ok(world: int, caps: dict[str, Any]) -> bool:
+    """Can the batch second moments of these activations / output gradients
+    be formed, symmetrised (x + x^T) and summed over `world` ranks inside
+    the float16 range?  A crude upper bound with a safety factor of two: if
+    it fails, a float16 factor may legitimately overflow and the step says
+    nothing about the properties (like a diverged run)."""
+    worst = 0.0
+    for c in caps.values():
+        for t in c['a'] + c['g']:
+            t = t.detach().to(F64)
+            if t.dim() == 4:
+                v = float(t.abs().max()) ** 2 * t.shape[2] * t.shape[3]
+            else:
+                r = t.reshape(-1, t.shape[-1])
+                v = float((r * r).mean(0).max()) if r.numel() else 0.0
+            worst = max(worst, v)
+    return 4.0 * world * max(worst, 1.0) < 65504.0 / 2
+
+
 def rel_err(got: torch.Tensor, want: torch.Tensor) -> float:
     got = got.to(F64)
     want = want.to(F64)
